@@ -10,5 +10,6 @@ var Profiles = map[string]Profile{
 	"oracle": {Mods: []string{"bank", "oracle", "distr"}, Run: OracleProfile},
 	"bankvm": {Mods: []string{"bank", "vesting", "cvm", "staking"}, Run: BankVMProfile},
 	"gov":    {Mods: []string{"bank", "gov", "cert", "staking"}, Run: GovProfile},
+	"staking": {Mods: []string{"bank", "staking"}, Run: StakingProfile},
 	"shield": {Mods: []string{"bank", "shield", "gov", "cert", "staking"}, Run: ShieldProfile},
 }
